@@ -539,6 +539,63 @@ theorem batch_step (S : SMemo) (hn : 1 ≤ S.bodies.length) (hu : utf8Valid S.bo
       intro i hi
       exact (hkeys i).mp ⟨e, hf, hall i hi⟩
 
+/-- the state after a history of batches (what `runS` threads through) -/
+def stateAfter : List (List (PG × Nat)) → List Entry → List Entry
+  | [], es => es
+  | b :: bs, es => stateAfter bs ((storeAll b es).filter stays)
+
+theorem runS_length (S : SMemo) (bs : List (List (PG × Nat))) (es : List Entry) : (runS S bs es).length = bs.length := by
+  induction bs generalizing es with
+  | nil => rfl
+  | cons b bs ih => simp [runS, ih]
+
+theorem idx_append (S : SMemo) (a b : List (PG × Nat)) : idx S (a ++ b) = idx S a ++ idx S b := by
+  simp [idx, List.filterMap_append]
+
+theorem runS_append (S : SMemo) (pre rest : List (List (PG × Nat))) (es : List Entry) :
+    runS S (pre ++ rest) es = runS S pre es ++ runS S rest (stateAfter pre es) := by
+  induction pre generalizing es with
+  | nil => rfl
+  | cons b bs ih => simp [runS, stateAfter, ih]
+
+/-- while some gram number has not arrived yet nothing is delivered and the held grams accumulate over the batches -/
+theorem runS_incomplete_prefix (S : SMemo) (hn : 1 ≤ S.bodies.length) (hu : utf8Valid S.bodies.flatten = true)
+    (pre : List (List (PG × Nat))) (es : List Entry) (hnd : MidsNodup es) (hinv : SInv S es) (hg : ∀ b ∈ pre, Genuine S b)
+    (j : Nat) (hj : j < S.bodies.length) (hk : ¬ keyOf S es j) (hmiss : j ∉ idx S pre.flatten) :
+    runS S pre es = List.replicate pre.length none ∧ MidsNodup (stateAfter pre es) ∧ SInv S (stateAfter pre es) ∧
+      ∀ i, keyOf S (stateAfter pre es) i ↔ keyOf S es i ∨ i ∈ idx S pre.flatten := by
+  induction pre generalizing es with
+  | nil => exact ⟨rfl, hnd, hinv, fun i => by simp [stateAfter, idx]⟩
+  | cons b bs ih =>
+    have hb := batch_step S hn hu b es hnd hinv (hg b List.mem_cons_self)
+    simp only at hb
+    obtain ⟨h1, h2, hcase⟩ := hb
+    simp only [List.flatten_cons, idx_append, List.mem_append, not_or] at hmiss
+    rcases hcase with ⟨hnone, hkeys, _⟩ | ⟨_, _, hall⟩
+    · have hk' : ¬ keyOf S ((storeAll b es).filter stays) j := by
+        intro h
+        rcases (hkeys j).mp h with h | h
+        · exact hk h
+        · exact hmiss.1 h
+      obtain ⟨r1, r2, r3, r4⟩ := ih _ h1 h2 (fun b' hb' => hg b' (List.mem_cons_of_mem _ hb')) hk' hmiss.2
+      refine ⟨by simp [runS, hnone, r1, List.replicate_succ], r2, r3, ?_⟩
+      intro i
+      simp only [stateAfter, List.flatten_cons, idx_append, List.mem_append]
+      rw [r4 i, hkeys i]
+      constructor
+      · rintro ((h | h) | h)
+        · left; exact h
+        · right; left; exact h
+        · right; right; exact h
+      · rintro (h | h | h)
+        · left; left; exact h
+        · left; right; exact h
+        · right; exact h
+    · exfalso
+      rcases hall j hj with h | h
+      · exact hk h
+      · exact hmiss.1 h
+
 /-! ### from datagrams to accepted grams -/
 
 /-- the parsed grams of a queue of datagrams all of which `pick` accepts (each in the state the previous ones left); `none` if one is
@@ -573,5 +630,123 @@ theorem recvLoop_picks (authic : Bool) (V : Bytes → Bytes → Bytes → Except
           exact ih _ _ hps
         · simp at h
       · simp at h
+
+theorem vidOf_of_SInv (S : SMemo) (hv : S.vid = none) (es : List Entry) (hinv : SInv S es) : vidOfEntries es S.mid = none := by
+  unfold vidOfEntries
+  cases hf : findEntry S.mid es with
+  | none => rfl
+  | some e => simp only; rw [(hinv e hf).vid, hv]
+
+/-- a queue made only of datagrams that `pick` parses — in any state holding no vid for the memo id — into genuine grams of the memo
+is accepted as a whole, whatever the order and the repetitions -/
+theorem picks_genuine (S : SMemo) (hv : S.vid = none) (V : Bytes → Bytes → Bytes → Except Exn Unit) (G : Nat → Bytes)
+    (hG : ∀ i, i < S.bodies.length → ∀ vidOf : Bytes → Option Bytes, vidOf S.mid = none → pick false vidOf V (G i) = .ok (S.gram i))
+    (is : List Nat) (his : ∀ i ∈ is, i < S.bodies.length) (es : List Entry) (hinv : SInv S es) :
+    picks false V (is.map fun i => (G i, S.src)) es = some (is.map fun i => (S.gram i, S.src)) := by
+  induction is generalizing es with
+  | nil => rfl
+  | cons i is ih =>
+    have hi : i < S.bodies.length := his i List.mem_cons_self
+    have hp := hG i hi (vidOfEntries es) (vidOf_of_SInv S hv es hinv)
+    have hne : (G i).isEmpty = false := by
+      cases hg : G i with
+      | nil =>
+        have := hG i hi (fun _ => none) rfl
+        rw [hg] at this
+        simp [pick, wiff] at this
+      | cons a as => rfl
+    simp only [List.map_cons, picks, hne, Bool.false_eq_true, if_false, hp]
+    rw [ih (fun k hk => his k (List.mem_cons_of_mem _ hk)) _ (store_genuine S es i hi hinv).1]
+
+theorem idx_map_gram (S : SMemo) (is : List Nat) : idx S (is.map fun i => (S.gram i, S.src)) = is := by
+  induction is with
+  | nil => rfl
+  | cons i is ih =>
+    have : idx S ((S.gram i, S.src) :: is.map fun i => (S.gram i, S.src)) = i :: idx S (is.map fun i => (S.gram i, S.src)) := by
+      simp [idx, SMemo.gram]
+    rw [List.map_cons, this, ih]
+
+theorem genuine_map_gram (S : SMemo) (is : List Nat) (his : ∀ i ∈ is, i < S.bodies.length) : Genuine S (is.map fun i => (S.gram i, S.src)) := by
+  intro x hx _
+  obtain ⟨i, hi, rfl⟩ := List.mem_map.mp hx
+  exact ⟨i, his i hi, rfl⟩
+
+theorem store_only (m : Bytes) (p : PG) (s : Nat) (es : List Entry) (hp : p.mid = m) (he : ∀ e ∈ es, e.mid = m) :
+    ∀ e ∈ store p s es, e.mid = m := by
+  induction es with
+  | nil => intro e h; simp only [store, List.mem_singleton] at h; subst h; exact hp
+  | cons a as ih =>
+    intro e h
+    simp only [store] at h
+    split at h
+    · rcases List.mem_cons.mp h with rfl | h
+      · exact he a List.mem_cons_self
+      · exact he e (List.mem_cons_of_mem _ h)
+    · rcases List.mem_cons.mp h with rfl | h
+      · exact he _ List.mem_cons_self
+      · exact ih (fun x hx => he x (List.mem_cons_of_mem _ hx)) e h
+
+theorem storeAll_only (m : Bytes) (seq : List (PG × Nat)) (es : List Entry) (hs : ∀ x ∈ seq, x.1.mid = m) (he : ∀ e ∈ es, e.mid = m) :
+    ∀ e ∈ storeAll seq es, e.mid = m := by
+  induction seq generalizing es with
+  | nil => exact he
+  | cons x xs ih =>
+    obtain ⟨p, s⟩ := x
+    exact ih _ (fun y hy => hs y (List.mem_cons_of_mem _ hy)) (store_only m p s es (hs (p, s) List.mem_cons_self) he)
+
+/-- a state all of whose entries bear one memo id has at most one entry -/
+theorem single_entry (m : Bytes) (es : List Entry) (hnd : MidsNodup es) (he : ∀ e ∈ es, e.mid = m) : es = [] ∨ ∃ e, es = [e] := by
+  match es with
+  | [] => left; rfl
+  | [e] => right; exact ⟨e, rfl⟩
+  | a :: b :: rest =>
+    exfalso
+    unfold MidsNodup at hnd
+    simp only [List.map_cons, List.nodup_cons, List.mem_cons, not_or] at hnd
+    exact hnd.1.1 ((he a List.mem_cons_self).trans (he b (List.mem_cons_of_mem _ List.mem_cons_self)).symm)
+
+theorem vidOf_of_held (S : SMemo) (es : List Entry) (hinv : SInv S es) (e : Entry) (he : findEntry S.mid es = some e) :
+    vidOfEntries es S.mid = S.vid := by
+  unfold vidOfEntries; rw [he]; exact (hinv e he).vid
+
+/-- signed (or any) memo whose later grams need the vid held by the receiver: once the memo's entry exists, every further genuine gram
+is accepted -/
+theorem picks_held (authic : Bool) (S : SMemo) (V : Bytes → Bytes → Bytes → Except Exn Unit) (G : Nat → Bytes)
+    (hG : ∀ i, i < S.bodies.length → ∀ vidOf : Bytes → Option Bytes, vidOf S.mid = S.vid → pick authic vidOf V (G i) = .ok (S.gram i))
+    (is : List Nat) (his : ∀ i ∈ is, i < S.bodies.length) (es : List Entry) (hinv : SInv S es) (e : Entry) (he : findEntry S.mid es = some e) :
+    picks authic V (is.map fun i => (G i, S.src)) es = some (is.map fun i => (S.gram i, S.src)) := by
+  induction is generalizing es e with
+  | nil => rfl
+  | cons i is ih =>
+    have hi : i < S.bodies.length := his i List.mem_cons_self
+    have hp := hG i hi (vidOfEntries es) (vidOf_of_held S es hinv e he)
+    have hne : (G i).isEmpty = false := by
+      cases hg : G i with
+      | nil =>
+        rw [hg] at hp
+        simp [pick, wiff] at hp
+      | cons a as => rfl
+    simp only [List.map_cons, picks, hne, Bool.false_eq_true, if_false, hp]
+    have hfe := findEntry_store_eq (S.gram i) S.src es
+    have hmid : (S.gram i).mid = S.mid := rfl
+    rw [hmid] at hfe
+    rw [ih (fun k hk => his k (List.mem_cons_of_mem _ hk)) _ (store_genuine S es i hi hinv).1 _ hfe]
+
+/-- … and when the zeroth gram (which carries the vid and is accepted in any state) comes first, the whole queue is accepted -/
+theorem picks_zeroth_first (authic : Bool) (S : SMemo) (hn : 1 ≤ S.bodies.length) (V : Bytes → Bytes → Bytes → Except Exn Unit) (G : Nat → Bytes)
+    (hG0 : ∀ vidOf : Bytes → Option Bytes, pick authic vidOf V (G 0) = .ok (S.gram 0))
+    (hG : ∀ i, i < S.bodies.length → ∀ vidOf : Bytes → Option Bytes, vidOf S.mid = S.vid → pick authic vidOf V (G i) = .ok (S.gram i))
+    (rest : List Nat) (his : ∀ i ∈ rest, i < S.bodies.length) (es : List Entry) (hinv : SInv S es) :
+    picks authic V ((0 :: rest).map fun i => (G i, S.src)) es = some ((0 :: rest).map fun i => (S.gram i, S.src)) := by
+  have hp := hG0 (vidOfEntries es)
+  have hne : (G 0).isEmpty = false := by
+    cases hg : G 0 with
+    | nil => rw [hg] at hp; simp [pick, wiff] at hp
+    | cons a as => rfl
+  simp only [List.map_cons, picks, hne, Bool.false_eq_true, if_false, hp]
+  have hfe := findEntry_store_eq (S.gram 0) S.src es
+  have hmid : (S.gram 0).mid = S.mid := rfl
+  rw [hmid] at hfe
+  rw [picks_held authic S V G hG rest his _ (store_genuine S es 0 (by omega) hinv).1 _ hfe]
 
 end Hio.Memo
